@@ -801,6 +801,387 @@ theorem GInv.changeVartype {m : LBqm Rat} (g : GInv m) (toBinary toSpin : PyTabl
   · rw [if_neg h]
     cases vt <;> (simp only [go_spec]; exact g.cvTable _ _ _)
 
+/-! ### loops that rewrite one neighbourhood per item (`remove_variable`) -/
+
+def rowStep (f : Label → ODict Label Rat → ODict Label Rat) (skip : Label) (adj : ODict Label (ODict Label Rat)) (p : Label × Rat) :
+    ODict Label (ODict Label Rat) :=
+  if p.1 = skip then adj else adj.set p.1 (f p.1 ((ODict.get? adj p.1).getD []))
+
+theorem foldl_rowStep_nodup (f : Label → ODict Label Rat → ODict Label Rat) (skip : Label) (N : ODict Label Rat)
+    (adj : ODict Label (ODict Label Rat)) (h : (okeys adj).Nodup) : (okeys (N.foldl (rowStep f skip) adj)).Nodup := by
+  induction N generalizing adj with
+  | nil => exact h
+  | cons p rest ih =>
+    simp only [List.foldl_cons]
+    apply ih
+    unfold rowStep
+    by_cases hp : p.1 = skip
+    · simp only [hp, if_true]; exact h
+    · simp only [hp, if_false]; exact okeys_set_nodup _ h _ _
+
+theorem foldl_rowStep_get? (f : Label → ODict Label Rat → ODict Label Rat) (skip : Label) (N : ODict Label Rat)
+    (hN : (okeys N).Nodup) (adj : ODict Label (ODict Label Rat)) (k : Label) :
+    ODict.get? (N.foldl (rowStep f skip) adj) k
+      = if k ∈ okeys N ∧ k ≠ skip then some (f k ((ODict.get? adj k).getD [])) else ODict.get? adj k := by
+  induction N generalizing adj with
+  | nil => simp [okeys]
+  | cons p rest ih =>
+    simp only [okeys, List.map_cons, List.nodup_cons] at hN
+    simp only [List.foldl_cons]
+    rw [ih hN.2]
+    have hstep : ∀ k', ODict.get? (rowStep f skip adj p) k'
+        = if p.1 = skip then ODict.get? adj k' else if p.1 = k' then some (f p.1 ((ODict.get? adj p.1).getD [])) else ODict.get? adj k' := by
+      intro k'
+      unfold rowStep
+      by_cases hp : p.1 = skip
+      · simp only [hp, if_true]
+      · simp only [hp, if_false]; exact get?_set_cases _ _ _ _
+    by_cases hk : k = p.1
+    · rw [hk]
+      have hnr : p.1 ∉ okeys rest := hN.1
+      have hin : p.1 ∈ okeys (p :: rest) := by simp [okeys]
+      rw [if_neg (fun h => hnr h.1), hstep]
+      by_cases hs : p.1 = skip
+      · simp [hs]
+      · simp [hs, hin]
+    · have hk' : ¬ p.1 = k := fun e => hk e.symm
+      have hmem : (k ∈ okeys (p :: rest)) ↔ k ∈ okeys rest := by simp [okeys, hk]
+      simp only [hmem]
+      rw [hstep]
+      by_cases hs : p.1 = skip
+      · simp only [hs, if_true]
+      · simp only [hs, if_false, hk']
+
+theorem look_none_of_not_key (m : LBqm Rat) (a b : Label) (nu : ODict Label Rat) (h : ODict.get? m.adj a = some nu) (hb : b ∉ okeys nu) :
+    m.look a b = none := by
+  rw [look_of_get? m a nu h]; exact get?_none_of_not_mem nu b hb
+
+theorem GInv.removeVariable {m : LBqm Rat} (g : GInv m) (v : Label) :
+    GInv (match m.removeVariable v with | .ok m' => m' | .error _ => m) := by
+  unfold LBqm.removeVariable
+  cases hv : ODict.get? m.adj v with
+  | none => exact g
+  | some nv =>
+    simp only []
+    have hstep : (fun (adj : ODict Label (ODict Label Rat)) (p : Label × Rat) =>
+        if p.1 = v then adj else ODict.set adj p.1 (ODict.pop ((ODict.get? adj p.1).getD []) v))
+        = rowStep (fun _ row => ODict.pop row v) v := rfl
+    rw [hstep]
+    have hnvn := (g.s.rows v nv hv).1
+    have hget : ∀ k, ODict.get? (nv.foldl (rowStep (fun _ row => ODict.pop row v) v) (ODict.pop m.adj v)) k
+        = if k = v then none else (ODict.get? m.adj k).map fun row => if k ∈ okeys nv then ODict.pop row v else row := by
+      intro k
+      rw [foldl_rowStep_get? _ _ nv hnvn, get?_pop _ g.s.nodup]
+      by_cases hk : k = v
+      · subst hk; simp
+      · have hk' : ¬ v = k := fun e => hk e.symm
+        simp only [hk, hk', if_false, ne_eq, not_false_eq_true, and_true]
+        by_cases hm : k ∈ okeys nv
+        · simp only [hm, if_true]
+          have h1 : (m.look v k).isSome := by rw [look_of_get? m v nv hv]; exact (isSome_get?_iff _ _).mpr hm
+          rw [g.sym v k] at h1
+          unfold look at h1
+          cases hg : ODict.get? m.adj k with
+          | none => rw [hg] at h1; simp at h1
+          | some r => simp
+        · simp only [hm, if_false]
+          cases ODict.get? m.adj k <;> simp
+    have hl : ∀ a b, look { m with adj := nv.foldl (rowStep (fun _ row => ODict.pop row v) v) (ODict.pop m.adj v) } a b
+        = if a = v ∨ b = v then none else m.look a b := by
+      intro a b
+      unfold look
+      simp only []
+      rw [hget]
+      by_cases ha : a = v
+      · simp [ha]
+      · simp only [ha, if_false, false_or]
+        cases hga : ODict.get? m.adj a with
+        | none => simp
+        | some ra =>
+          simp only [Option.map_some, Option.bind_some]
+          have hra := (g.s.rows a ra hga).1
+          by_cases hm : a ∈ okeys nv
+          · simp only [hm, if_true]
+            rw [get?_pop _ hra]
+            by_cases hb : b = v
+            · simp [hb]
+            · have hb' : ¬ v = b := fun e => hb e.symm
+              simp [hb, hb']
+          · simp only [hm, if_false]
+            by_cases hb : b = v
+            · subst hb
+              simp only [if_true]
+              have h1 : m.look a b = none := by
+                rw [g.sym a b]; exact look_none_of_not_key m b a nv hv hm
+              rw [look_of_get? m a ra hga] at h1
+              exact h1
+            · simp [hb]
+    refine ⟨⟨foldl_rowStep_nodup _ _ _ _ (okeys_pop_nodup _ g.s.nodup v), ?_⟩, ?_⟩
+    · intro u nu' hu
+      simp only [] at hu
+      rw [hget] at hu
+      by_cases huv : u = v
+      · simp [huv] at hu
+      · simp only [huv, if_false] at hu
+        cases hgu : ODict.get? m.adj u with
+        | none => rw [hgu] at hu; simp at hu
+        | some ru =>
+          rw [hgu] at hu
+          simp only [Option.map_some, Option.some.injEq] at hu
+          have r := g.s.rows u ru hgu
+          by_cases hm : u ∈ okeys nv
+          · simp only [hm, if_true] at hu
+            subst hu
+            exact ⟨okeys_pop_nodup _ r.1 v, (mem_okeys_pop _ r.1 _ _).mpr ⟨huv, r.2⟩⟩
+          · simp only [hm, if_false] at hu
+            subst hu; exact r
+    · intro a b
+      rw [hl, hl, g.sym a b]
+      by_cases x : a = v <;> by_cases y : b = v <;> simp [x, y]
+
+/-! ### `relabel_variables`: the loop that moves the interactions of `old` over to `new` -/
+
+/-- what `_adj[a][b]` is while the loop runs, `D` = the neighbours already moved -/
+def relF (m : LBqm Rat) (old new : Label) (b0 : Rat) (D : List Label) (a b : Label) : Option Rat :=
+  if a = new then (if b = new then some b0 else if b ∈ D then m.look old b else none)
+  else if b = new then (if a ∈ D then m.look a old else none)
+  else if a ∈ D ∧ b = old then none
+  else m.look a b
+
+structure RI (m : LBqm Rat) (old new : Label) (b0 : Rat) (D : List Label) (adj : ODict Label (ODict Label Rat)) : Prop where
+  s : SInv { m with adj := adj }
+  lk : ∀ a b, look { m with adj := adj } a b = relF m old new b0 D a b
+
+theorem get?_of_look_some (m : LBqm Rat) (a b : Label) (h : (m.look a b).isSome) : ∃ nu, ODict.get? m.adj a = some nu := by
+  unfold look at h
+  cases hg : ODict.get? m.adj a with
+  | none => rw [hg] at h; simp at h
+  | some r => exact ⟨r, rfl⟩
+
+theorem RI.step {m : LBqm Rat} (g : GInv m) {old new : Label} {b0 : Rat} {D : List Label} {adj : ODict Label (ODict Label Rat)}
+    (r : RI m old new b0 D adj) (hon : old ≠ new) (p : Label × Rat) (hpD : p.1 ∉ D) (hpn : p.1 ≠ new) (hpo : p.1 ≠ old)
+    (hp : m.look old p.1 = some p.2) (hself : (m.look p.1 p.1).isSome) :
+    RI m old new b0 (p.1 :: D) (relabelMove old new adj p) := by
+  have hno : new ≠ old := fun e => hon e.symm
+  have hnp : new ≠ p.1 := fun e => hpn e.symm
+  have hop : old ≠ p.1 := fun e => hpo e.symm
+  -- the two rows involved
+  have hlpp : (look { m with adj := adj } p.1 p.1).isSome := by
+    rw [r.lk]; unfold relF; simp only [hpn, if_false, hpD, false_and, hself]
+  obtain ⟨nv, hnv⟩ := get?_of_look_some { m with adj := adj } p.1 p.1 hlpp
+  have hlnn : (look { m with adj := adj } new new).isSome := by
+    rw [r.lk]; unfold relF; simp
+  obtain ⟨rn, hrn⟩ := get?_of_look_some { m with adj := adj } new new hlnn
+  have hnv' : ODict.get? adj p.1 = some nv := hnv
+  have hrn' : ODict.get? adj new = some rn := hrn
+  have rowp := r.s.rows p.1 nv hnv
+  have rown := r.s.rows new rn hrn
+  -- the value moved
+  have hx : (ODict.get? nv old).getD p.2 = p.2 := by
+    have h1 : look { m with adj := adj } p.1 old = ODict.get? nv old := look_of_get? _ _ _ hnv _
+    rw [← h1, r.lk]; unfold relF
+    simp only [hpn, hon, if_false, hpD, false_and]
+    rw [← g.sym old p.1, hp]; rfl
+  have hg1 : ODict.get? (ODict.set adj new (ODict.set rn p.1 p.2)) p.1 = some nv := by
+    rw [get?_set_ne _ _ _ _ hnp]; exact hnv'
+  have hmv : relabelMove old new adj p = (adj.set new (rn.set p.1 p.2)).set p.1 ((nv.pop old).set new p.2) := by
+    unfold relabelMove
+    simp only [hnv', hrn', Option.getD_some, hx, hg1]
+  rw [hmv]
+  have s1 : SInv { m with adj := adj.set new (rn.set p.1 p.2) } :=
+    SInv.setRow r.s new _ (okeys_set_nodup _ rown.1 _ _) ((mem_okeys_set _ _ _ _).mpr (Or.inr rown.2))
+  have s2 := SInv.setRow s1 p.1 ((nv.pop old).set new p.2) (okeys_set_nodup _ (okeys_pop_nodup _ rowp.1 old) _ _)
+    ((mem_okeys_set _ _ _ _).mpr (Or.inr ((mem_okeys_pop _ rowp.1 _ _).mpr ⟨hpo, rowp.2⟩)))
+  refine ⟨s2, ?_⟩
+  intro a b
+  have e1 := look_setRow { m with adj := adj.set new (rn.set p.1 p.2) } p.1 ((nv.pop old).set new p.2) a b
+  simp only [] at e1
+  have e2 := look_setRow { m with adj := adj } new (rn.set p.1 p.2) a b
+  simp only [] at e2
+  rw [e1, e2, get?_set_cases, get?_set_cases, get?_pop _ rowp.1]
+  have hl1 : ODict.get? nv b = relF m old new b0 D p.1 b := by
+    rw [← r.lk]; exact (look_of_get? { m with adj := adj } p.1 nv hnv b).symm
+  have hl2 : ODict.get? rn b = relF m old new b0 D new b := by
+    rw [← r.lk]; exact (look_of_get? { m with adj := adj } new rn hrn b).symm
+  rw [hl1, hl2, r.lk]
+  have hp' : m.look p.1 old = some p.2 := by rw [← g.sym old p.1]; exact hp
+  unfold relF
+  by_cases a1 : a = p.1
+  · subst a1
+    by_cases b1 : b = new
+    · subst b1; simp [hpn, hp']
+    · have b1' : ¬ new = b := fun e => b1 e.symm
+      by_cases b2 : b = old
+      · subst b2; simp [hpn, b1, b1', hon]
+      · have b2' : ¬ old = b := fun e => b2 e.symm
+        simp [hpn, b1, b1', b2, b2', hpD]
+  · by_cases a2 : a = new
+    · subst a2
+      by_cases b1 : b = p.1
+      · subst b1; simp [a1, hpn, hp]
+      · have b1' : ¬ p.1 = b := fun e => b1 e.symm
+        simp [a1, b1, b1']
+    · simp [a1, a2]
+
+theorem RI.fold {m : LBqm Rat} (g : GInv m) {old new : Label} {b0 : Rat} (hon : old ≠ new) (N : ODict Label Rat) :
+    ∀ (D : List Label) (adj : ODict Label (ODict Label Rat)), RI m old new b0 D adj → (okeys N).Nodup →
+      (∀ p ∈ N, p.1 ∉ D ∧ p.1 ≠ new ∧ p.1 ≠ old ∧ m.look old p.1 = some p.2 ∧ (m.look p.1 p.1).isSome) →
+      ∃ D', RI m old new b0 D' (N.foldl (relabelMove old new) adj) ∧ ∀ x, x ∈ D' ↔ x ∈ D ∨ x ∈ okeys N := by
+  induction N with
+  | nil => intro D adj r _ _; exact ⟨D, r, fun x => by simp [okeys]⟩
+  | cons p rest ih =>
+    intro D adj r hnd hall
+    simp only [okeys, List.map_cons, List.nodup_cons] at hnd
+    obtain ⟨h1, h2, h3, h4, h5⟩ := hall p List.mem_cons_self
+    have r' := r.step g hon p h1 h2 h3 h4 h5
+    have hall' : ∀ q ∈ rest, q.1 ∉ (p.1 :: D) ∧ q.1 ≠ new ∧ q.1 ≠ old ∧ m.look old q.1 = some q.2 ∧ (m.look q.1 q.1).isSome := by
+      intro q hq
+      obtain ⟨k1, k2, k3, k4, k5⟩ := hall q (List.mem_cons_of_mem _ hq)
+      refine ⟨?_, k2, k3, k4, k5⟩
+      intro hmem
+      rcases List.mem_cons.mp hmem with e | e
+      · exact hnd.1 (e ▸ List.mem_map.mpr ⟨q, hq, rfl⟩)
+      · exact k1 e
+    obtain ⟨D', rD, hD⟩ := ih (p.1 :: D) _ r' hnd.2 hall'
+    refine ⟨D', rD, fun x => ?_⟩
+    rw [hD x]
+    simp only [okeys, List.map_cons, List.mem_cons]
+    tauto
+
+theorem GInv.relabelOne {m : LBqm Rat} (g : GInv m) (old new : Label) (hnew : new ∉ okeys m.adj) : GInv (m.relabelOne old new) := by
+  unfold LBqm.relabelOne
+  by_cases hon : old = new
+  · rw [if_pos hon]; exact g
+  · rw [if_neg hon]
+    cases hold : ODict.get? m.adj old with
+    | none => exact g
+    | some nold =>
+      simp only []
+      have rold := g.s.rows old nold hold
+      obtain ⟨b0, hb0⟩ := Option.isSome_iff_exists.mp ((isSome_get?_iff _ _).mpr rold.2)
+      rw [hb0]
+      simp only []
+      have hnewnone : ODict.get? m.adj new = none := get?_none_of_not_mem _ _ hnew
+      have hlooknew : ∀ a, m.look a new = none := by
+        intro a; rw [g.sym a new]; unfold look; rw [hnewnone]; rfl
+      have hno : new ≠ old := fun e => hon e.symm
+      -- before the loop
+      have r0 : RI m old new b0 [] (m.adj.set new [(new, b0)]) := by
+        refine ⟨SInv.setRow g.s new _ (by simp [okeys]) (by simp [okeys]), ?_⟩
+        intro a b
+        have e := look_setRow m new [(new, b0)] a b
+        rw [e]; unfold relF
+        by_cases a1 : a = new
+        · by_cases b1 : b = new
+          · simp [a1, b1, ODict.get?]
+          · have : ¬ new = b := fun e => b1 e.symm
+            simp [a1, b1, ODict.get?, this]
+        · by_cases b1 : b = new
+          · simp [a1, b1, hlooknew]
+          · simp [a1, b1]
+      -- the neighbours of `old`
+      have hNnd : (okeys (nold.pop old)).Nodup := okeys_pop_nodup _ rold.1 old
+      have hall : ∀ p ∈ nold.pop old, p.1 ∉ ([] : List Label) ∧ p.1 ≠ new ∧ p.1 ≠ old ∧ m.look old p.1 = some p.2 ∧ (m.look p.1 p.1).isSome := by
+        intro p hp
+        have hk : p.1 ∈ okeys (nold.pop old) := List.mem_map.mpr ⟨p, hp, rfl⟩
+        have hk' := (mem_okeys_pop _ rold.1 _ _).mp hk
+        have hget : ODict.get? (nold.pop old) p.1 = some p.2 := get?_of_mem _ hNnd p.1 p.2 hp
+        rw [get?_pop _ rold.1] at hget
+        have hop : ¬ old = p.1 := fun e => hk'.1 e.symm
+        simp only [hop, if_false] at hget
+        have hl : m.look old p.1 = some p.2 := by rw [look_of_get? m old nold hold]; exact hget
+        have hpk : ∃ np, ODict.get? m.adj p.1 = some np := by
+          have : (m.look p.1 old).isSome := by rw [← g.sym old p.1, hl]; rfl
+          exact get?_of_look_some m p.1 old this
+        obtain ⟨np, hnp⟩ := hpk
+        refine ⟨by simp, ?_, hk'.1, hl, ?_⟩
+        · intro e
+          exact hnew (e ▸ mem_keys_of_get? _ _ _ hnp)
+        · rw [look_of_get? m p.1 np hnp]; exact (isSome_get?_iff _ _).mpr (g.s.rows p.1 np hnp).2
+      obtain ⟨D, rD, hD⟩ := RI.fold g hon (nold.pop old) [] _ r0 hNnd hall
+      have hDk : ∀ x, x ∈ D ↔ x ≠ old ∧ x ∈ okeys nold := by
+        intro x; rw [hD x, mem_okeys_pop _ rold.1]; simp
+      generalize (List.foldl (relabelMove old new) (ODict.set m.adj new [(new, b0)]) (ODict.pop nold old)) = res at rD
+      have hres := rD.s
+      refine ⟨⟨okeys_pop_nodup _ hres.nodup old, ?_⟩, ?_⟩
+      · intro u nu hu
+        simp only [] at hu
+        rw [get?_pop _ hres.nodup] at hu
+        by_cases h : old = u
+        · simp [h] at hu
+        · simp only [h, if_false] at hu
+          exact hres.rows u nu hu
+      · have hl : ∀ a b, look { m with adj := ODict.pop res old } a b = if a = old then none else relF m old new b0 D a b := by
+          intro a b
+          rw [← rD.lk]
+          unfold look
+          simp only []
+          rw [get?_pop _ hres.nodup]
+          by_cases h : old = a
+          · subst h; simp
+          · have : ¬ a = old := fun e => h e.symm
+            simp [h, this]
+        intro a b
+        rw [hl, hl]
+        have oldD : old ∉ D := fun h => ((hDk old).mp h).1 rfl
+        have hnotD : ∀ x, x ∉ D → x ≠ old → m.look old x = none := by
+          intro x hx hxo
+          rw [look_of_get? m old nold hold]
+          apply get?_none_of_not_mem
+          intro hm; exact hx ((hDk x).mpr ⟨hxo, hm⟩)
+        have F12 : ∀ x, x ≠ old → relF m old new b0 D x old = none := by
+          intro x hx
+          unfold relF
+          by_cases x1 : x = new
+          · simp [x1, hon, oldD]
+          · by_cases x2 : x ∈ D
+            · simp [x1, hon, x2]
+            · simp only [x1, if_false, hon, x2, false_and]
+              rw [g.sym x old]; exact hnotD x x2 hx
+        have F3 : ∀ x y, x ≠ old → y ≠ old → relF m old new b0 D x y = relF m old new b0 D y x := by
+          intro x y hx hy
+          unfold relF
+          by_cases x1 : x = new <;> by_cases y1 : y = new
+          · simp [x1, y1]
+          · simp [x1, y1, g.sym old y]
+          · simp [x1, y1, g.sym old x]
+          · simp [x1, y1, hx, hy, g.sym x y]
+        by_cases a0 : a = old
+        · by_cases b0' : b = old
+          · simp [a0, b0']
+          · rw [if_pos a0, if_neg b0', a0, F12 b b0']
+        · by_cases b0' : b = old
+          · rw [if_neg a0, if_pos b0', b0', F12 a a0]
+          · rw [if_neg a0, if_neg b0', F3 a b a0 b0']
+
+/-! ### histories -/
+
+theorem GInv.hstep {m : LBqm Rat} (g : GInv m) (op : HOp Rat) : GInv (m.hstep op) := by
+  cases op with
+  | addLinear v b => exact g.addLinear v b
+  | setLinear v b => exact g.setLinear v b
+  | addQuadratic u v b => exact g.addQuadratic u v b
+  | removeInteraction u v => exact g.removeInteraction u v
+  | removeVariable v => exact g.removeVariable v
+  | relabel old new =>
+    unfold LBqm.hstep
+    by_cases h : m.adj.contains new = true
+    · simp only [h, if_true]; exact g
+    · simp only [h, Bool.false_eq_true, if_false]
+      apply g.relabelOne old new
+      intro hm
+      exact h ((isSome_get?_iff _ _).mpr hm)
+  | setOffset b => exact g.setOffset b
+  | changeVartype vt => exact g.changeVartype _ _ vt
+
+theorem GInv.foldl {m : LBqm Rat} (g : GInv m) (ops : List (HOp Rat)) : GInv (ops.foldl LBqm.hstep m) := by
+  induction ops generalizing m with
+  | nil => exact g
+  | cons op rest ih => exact ih (g.hstep op)
+
+/-- every state a history of data-level calls reaches from the empty model satisfies the representation invariant -/
+theorem GInv.hrun (vt : VT) (ops : List (HOp Rat)) : GInv (LBqm.hrun vt ops) := (GInv.empty vt).foldl ops
+
 end LBqm
 
 end En
